@@ -631,6 +631,10 @@ func MemberAlphabet() []func(a *App) {
 		func(a *App) {
 			a.Eps = append(a.Eps, &Endpoint{Kind: "subscribe", Source: []string{"Pub"}, Name: "Topic", Stmts: []*Stmt{{Kind: "action", Text: "s"}}})
 		},
+		func(a *App) {
+			a.Eps = append(a.Eps, &Endpoint{Kind: "rest", Method: "PUT", Path: []PathSeg{{Static: "x"}, {Var: "key", VarT: &TypeExpr{RefApp: []string{"Other"}, Ref: []string{"U"}}}},
+				Params: []*Param{{Name: "hdr", T: prim("string"), Attrs: []Attr{{Key: "header", Tag: true}}}}, Stmts: []*Stmt{{Kind: "action", Text: "upd"}}})
+		},
 		func(a *App) { a.Mixins = append(a.Mixins, []string{"Mix"}) },
 		func(a *App) { a.Annos = append(a.Annos, Attr{Key: "anno", Val: Str("v")}) },
 		func(a *App) {
